@@ -407,7 +407,7 @@ pub fn run(ctx: &Ctx) {
     assert_eq!(model_diff(t(3, 0, 59, 1_600_000_000), t(3, 0, 59, 400_000_000)), s(1.2));
     assert_eq!(model_diff(t(3, 0, 59, 1_000_000_000), t(3, 0, 0, 0)), s(60.0));
 
-    let n = ctx.n(3_000_000, 100_000_000);
+    let n = ctx.n(3_000_000, 300_000_000);
     ctx.run_prop(&Ctor, n);
     ctx.run_prop(&Replace, n / 2);
     ctx.run_prop(&Add, n);
